@@ -3,8 +3,12 @@ import numpy as np
 
 from common import R, Rmat, cfl, fl, max_rel_err, ModelError
 
-LEAN_MODULES = ["PyomaVerif.Props.C13", "PyomaVerif.Mutants.C13"]
+from common import wiring_pre_build as pre_build  # noqa: E402,F401
+
+LEAN_MODULES = ["PyomaVerif.Props.C13", "PyomaVerif.Mutants.C13", "PyomaVerif.Props.WiringRun"]
 THEOREMS = [
+    # call-site wiring of the class layer, regenerated from /repo on every run (translate_wiring.py)
+    "PV.WiringRun.C13_run_spectral",
     "PV.C13.sd_pairing_per_entry",
     "PV.C13.sd_pairing_per",
     "PV.C13.sd_pairing_cor",
